@@ -140,6 +140,7 @@ type harness struct {
 	inCall  string
 
 	emitsThisCall int
+	sinkRolls     int
 	// direct mode: how many intervals the ring lags behind the clock (negative: ahead)
 	lag int
 }
@@ -176,8 +177,15 @@ func (h *harness) call(what string, f func()) {
 	h.hook.limit = 400*h.n + 20000
 	h.emitsThisCall = 0
 	// debug logging (which feeds the work budget) only where the code under test has loops over the ring
-	if what == "SetSink" || (what == "Rollover" && h.sinkOn) {
+	// (every SetSink; the first 30 rollovers with a sink attached and every 5th after that - a walk that does not
+	// terminate depends on ring state that persists across consecutive rollovers, and debug logging dominates run cost)
+	if what == "SetSink" {
 		logrus.SetLevel(logrus.DebugLevel)
+	} else if what == "Rollover" && h.sinkOn {
+		h.sinkRolls++
+		if h.sinkRolls <= 30 || h.sinkRolls%5 == 0 {
+			logrus.SetLevel(logrus.DebugLevel)
+		}
 	}
 	f()
 	logrus.SetLevel(logrus.ErrorLevel)
